@@ -7,4 +7,5 @@ for p in $(python3 -c "import json; print(' '.join(c['property_id'] for c in jso
   echo "$p exit=$code $(echo "$out" | grep '^govc:' | sed 's/govc: property [A-Z0-9]* tier quick: //')"
   if [ $code -ne 0 ]; then rc=1; echo "$out" | grep -E "^(VIOLATION|UNDECIDED)" | sed 's/replay=[^ ]* //' | cut -c1-200 | head -8; fi
 done
+python3 tools/audit_contracts.py || rc=1
 exit $rc
